@@ -26,6 +26,22 @@ REPO = os.environ.get("YLINT_REPO", "/repo")
 CACHE = os.path.join(VERIF, ".cache")
 DRIVER = os.path.join(VERIF, "ylint", "target", "release", "ylint")
 
+RUSTFLAGS = "-Zmir-opt-level=0 -Zalways-encode-mir -Awarnings"
+
+# roots of the instantiated call graph (decode cone of C10 + integration cone of C01)
+MONO_ROOTS = [
+    "@decode-impls",
+    "yrs::updates::decoder::DecoderV1::new", "yrs::updates::decoder::DecoderV2::new",
+    "yrs::any::Any::decode", "yrs::any::Any::from_json",
+    "<yrs::sync::protocol::MessageReader<'a, D> as std::iter::Iterator>::next",
+    "yrs::alt::merge_updates_v1", "yrs::alt::merge_updates_v2", "yrs::alt::diff_updates_v1", "yrs::alt::diff_updates_v2",
+    "yrs::alt::encode_state_vector_from_update_v1", "yrs::alt::encode_state_vector_from_update_v2",
+    "yrs::update::Update::merge_updates", "yrs::update::Update::encode_diff", "yrs::update::Update::state_vector",
+    "<yrs::id_map::IdMap<A> as yrs::updates::decoder::Decode>::decode",
+    "yrs::sync::awareness::Awareness::apply_update",
+    "yrs::update::Update::integrate", "yrs::transaction::TransactionMut::apply_delete", "yrs::transaction::TransactionMut::apply_update",
+]
+
 CONFIGS = {
     # tag: cargo args
     "default": ["-p", "yrs", "-p", "yffi"],
@@ -54,6 +70,9 @@ def tree_hash():
         with open(f, "rb") as fh:
             h.update(fh.read())
         h.update(b"\0")
+    # so are the flags and roots the driver runs with
+    h.update(RUSTFLAGS.encode())
+    h.update(";".join(MONO_ROOTS).encode())
     # the driver is part of the function from tree to facts
     if os.path.exists(DRIVER):
         with open(DRIVER, "rb") as fh:
@@ -98,11 +117,12 @@ def ensure_facts(tags):
             env.update({
                 "CARGO_NET_OFFLINE": "true",
                 "LD_LIBRARY_PATH": sysroot + "/lib",
-                "RUSTFLAGS": "-Zmir-opt-level=0 -Awarnings",
+                "RUSTFLAGS": RUSTFLAGS,
                 "RUSTC_WORKSPACE_WRAPPER": DRIVER,
                 "CARGO_TARGET_DIR": tgt,
                 "YLINT_OUT": out,
                 "YLINT_TAG": tag,
+                "YLINT_MONO_ROOTS": ";".join(MONO_ROOTS),
             })
             t0 = time.time()
             p = subprocess.run(["cargo", "+nightly", "check", "--offline"] + CONFIGS[tag], cwd=REPO, env=env,
